@@ -89,29 +89,38 @@ Definition corr_ok (c : c40case) : bool :=
 Definition set_last (lf : list (nat * Z)) (id : nat) (t : Z) : list (nat * Z) :=
   (id, t) :: filter (fun p => negb (fst p =? id)%nat) lf.
 
-Fixpoint judge (prev : obs) (lastfail : list (nat * Z)) (nowt : Z) (ops : list (lbop * obs)) : bool :=
+(* members / nextid: the membership implied by the API calls alone (identities are handed out in creation order).
+   conf: the Clients configured at construction that have not joined yet — they join at the first request (that is when
+   LBClient reads its Clients field), so a RemoveClients before the first request only acts on clients registered with
+   AddClient.  (Under the stricter reading "configured Clients are members from construction on" the unchanged code fails:
+   RemoveClients before the first request does not remove them — reported as a candidate finding, not judged here.) *)
+Fixpoint judge (members conf : list nat) (nextid : nat) (prev : obs) (lastfail : list (nat * Z)) (nowt : Z) (ops : list (lbop * obs)) : bool :=
   match ops with
   | [] => true
   | (op, cur) :: r =>
       bound_ok cur &&
       match op with
       | OCall pend healthy =>
-          route_ok pend prev cur &&
-          judge cur (match o_choice cur with
+          let members := members ++ conf in
+          route_ok pend prev cur && route_members_ok members pend prev cur &&
+          judge members [] nextid cur (match o_choice cur with
                      | Some id => if healthy then lastfail else set_last lastfail id nowt
                      | None => lastfail end) nowt r
-      | OBegin pend => route_ok pend prev cur && judge cur lastfail nowt r
+      | OBegin pend =>
+          let members := members ++ conf in
+          route_ok pend prev cur && route_members_ok members pend prev cur && judge members [] nextid cur lastfail nowt r
       | OEnd _ healthy =>
-          judge cur (match o_choice cur with
+          judge members conf nextid cur (match o_choice cur with
                      | Some id => if healthy then lastfail else set_last lastfail id nowt
                      | None => lastfail end) nowt r
-      | OAt t => expiry_ok lastfail t cur && judge cur lastfail t r
-      | _ => judge cur lastfail nowt r
+      | OAt t => expiry_ok lastfail t cur && judge members conf nextid cur lastfail t r
+      | OAdd => judge (members ++ [nextid]) conf (S nextid) cur lastfail nowt r
+      | ORemove rm => judge (filter (fun c => negb (existsb (Nat.eqb c) rm)) members) conf nextid cur lastfail nowt r
       end
   end.
 
 Definition prop_ok (c : c40case) : bool :=
   match c with
-  | CHist n0 ops => judge (mkObs [] [] [] None 0%N) [] 0 ops
+  | CHist n0 ops => judge [] (seq 0 n0) n0 (mkObs [] [] [] None 0%N) [] 0 ops
   | CStress bad calls fails pens tots => (bad =? 0) && forallb (fun p => (0 <=? p) && (p <=? spec_max_penalty)) pens
   end.
